@@ -1,0 +1,29 @@
+//go:build verif
+
+// Package verifhook provides named no-op points used by the verification
+// harness in /verif. With the "verif" build tag a handler can be installed
+// that is called at each point (to capture a directory image or to park the
+// calling goroutine); without the tag At compiles to nothing.
+package verifhook
+
+import "sync/atomic"
+
+type handlerFunc func(name string)
+
+var handler atomic.Value // of handlerFunc
+
+// Enabled reports whether hooks are compiled in.
+const Enabled = true
+
+// Set installs h as the handler called by At. A nil h removes the handler.
+func Set(h func(name string)) {
+	handler.Store(handlerFunc(h))
+}
+
+// At calls the installed handler, if any, with the name of the point.
+func At(name string) {
+	h, _ := handler.Load().(handlerFunc)
+	if h != nil {
+		h(name)
+	}
+}
